@@ -257,4 +257,21 @@ CLAIMS = {
                 "reached, duplicate block names without extends, mutually nested blocks that describe an infinite page.",
         "technique": "bounded-exhaustive enumeration + property-based generation against a reference resolver",
     },
+    "C01": {
+        "level": "Model-based generated-input search: ~18k cases per quick run / ~0.4M thorough. An independent reference "
+                 "interpreter for the documented semantics (lv/model/interp*.py; no liquid2 imports; 56 filters; "
+                 "whitespace control, blank-block suppression, truthiness/equality/ordering/contains, and/or/not "
+                 "precedence, scope order, forloop/parentloop, limit/offset/reversed/offset:continue, counters, "
+                 "cycles, captures, macros, include/render) is first calibrated against 264 examples transcribed "
+                 "from the docs and the compliance suite (a contradiction is a harness error, exit 2), then compared "
+                 "with render() on grammar-generated and focused programs over typed data in all 12 combinations of "
+                 "default_trim x suppress_blank_control_flow_blocks x shorthand_indexes (O1), and the same program is "
+                 "rendered under several printer layouts and must give identical text (O2, model-free). Constructs the "
+                 "documentation does not determine are returned as `unsup` by the model and only counted. "
+                 "Exploration only.",
+        "design_ref": "DESIGN.md §3 C01",
+        "note": "About 30% of generated programs touch undocumented behaviour and are checked by O2 only; the list is in "
+                "the module's assumptions and in the evidence (labels unsup:*).",
+        "technique": "model-based property testing (Hypothesis) against an independent reference interpreter + metamorphic layout independence",
+    },
 }
